@@ -27,7 +27,9 @@ known_findings.d/C23.json, repairs in fixes/C23-*.diff):
     node does not sit at the same sorted position in all cells (`np.argwhere` is row-major);
     the model uses the shared node of the cell's own two faces;
   * `refine_triangle_grid` returns `parent = tile(arange(nc), 4)` although the children of cell `c`
-    are the columns `4c … 4c+3`; the model returns `j / 4`.
+    are the columns `4c … 4c+3`; the model returns `j / 4`;
+  * `_extrude_1d` signs the vertical faces by their stored position (−1, +1) instead of inheriting
+    the base grid's signs, and raises for base grids that store some cell's faces as (+1, −1).
 -/
 namespace PorepyVerif.C23
 
@@ -218,7 +220,7 @@ structure Base where
   fn : List (List Nat)                  -- nodes of each face
   cn : List (List Nat)                  -- nodes of each cell
   cf : List (List (Nat × Int))          -- faces of each cell with sign
-deriving Repr
+deriving DecidableEq, Repr
 
 structure Extruded where
   nodes : List V3
@@ -226,7 +228,7 @@ structure Extruded where
   cf : List (List (Nat × Int))
   cellMap : List (List Nat)
   faceMap : List (List Nat)
-deriving Repr
+deriving DecidableEq, Repr
 
 /-- `arange(start, stop, step)` for step ≥ 1, as a count -/
 def arange (start step count : Nat) : List Nat := (List.range count).map (fun k => start + k * step)
@@ -246,23 +248,19 @@ def horizontalFaces (nn : Nat) (cn : List (List Nat)) (nodeLayers : Nat) : List 
   ((List.range nodeLayers).map (fun j => cn.map (fun ns => ns.map (· + j * nn)))).flatten
 
 /-- cell `(c, k)` = number `c + k·C`: its vertical faces are the base cell's faces shifted by
-    `k·stride`, plus the horizontal faces below (−1) and above (+1).
-    `stride` is `num_faces` in `_extrude_2d` and `num_nodes` in `_extrude_1d`;
-    `_extrude_1d` also replaces the inherited signs by (−1, +1). -/
+    `k·stride` with the base cell's signs, plus the horizontal faces below (−1) and above (+1).
+    `stride` is `num_faces` in `_extrude_2d` and `num_nodes` in `_extrude_1d` (equal for 1-d grids).
+    (`_extrude_1d` at the pinned commit replaces the inherited signs by the positional pattern
+    (−1, +1); that is only consistent if every base cell stores its faces in that order — recorded
+    as a finding, the model follows the repaired behaviour, which is that of `_extrude_2d`.) -/
 def extrudeCells (b : Base) (layers : Nat) : List (List (Nat × Int)) :=
   let nc := b.cf.length
   let fv := b.fn.length * layers
   let stride := if b.dim = 1 then b.nodes.length else b.fn.length
   ((List.range layers).map (fun k =>
     (List.range nc).map (fun c =>
-      let fs := b.cf.getD c []
-      let vert :=
-        if b.dim = 1 then
-          match fs with
-          | [f0, f1] => [(f0.1 + k * stride, (-1 : Int)), (f1.1 + k * stride, (1 : Int))]
-          | _ => fs.map (fun fsg => (fsg.1 + k * stride, fsg.2))
-        else fs.map (fun fsg => (fsg.1 + k * stride, fsg.2))
-      vert ++ [(fv + k * nc + c, (-1 : Int)), (fv + (k + 1) * nc + c, (1 : Int))]))).flatten
+      ((b.cf.getD c []).map (fun fsg => (fsg.1 + k * stride, fsg.2)))
+        ++ [(fv + k * nc + c, (-1 : Int)), (fv + (k + 1) * nc + c, (1 : Int))]))).flatten
 
 /-- cell map row of base cell `c`: `arange(c, C·L, C)` -/
 def cellMapRow (nc layers c : Nat) : List Nat := arange c nc layers
@@ -286,6 +284,13 @@ def extrude (b : Base) (z : List Rat) : Extruded :=
       cf := extrudeCells b layers,
       cellMap := (List.range nc).map (cellMapRow nc layers),
       faceMap := (List.range nf).map (fun f => arange f nf layers) }
+
+/-- `extrude_grid` rejects layer coordinates of mixed sign (`ValueError`) -/
+def zSignOk (z : List Rat) : Bool := z.all (fun v => decide (0 ≤ v)) || z.all (fun v => decide (v ≤ 0))
+
+/-- `extrude_grid` with its argument checks: mixed-sign `z` and base dimension > 2 are errors -/
+def extrudeChecked (b : Base) (z : List Rat) : Option Extruded :=
+  if !zSignOk z then none else if 2 < b.dim then none else some (extrude b z)
 
 /-- layer heights `z_{k+1} - z_k` -/
 def heights : List Rat → List Rat
